@@ -554,6 +554,16 @@ theorem retry_codes_classified :
     ioFromSystem EINTR ≠ P_ERROR_IO_WOULD_BLOCK ∧ ioFromSystem EINPROGRESS = P_ERROR_IO_IN_PROGRESS := by
   decide
 
+/-- the handshake-pending answers of `connect ()` — `EINPROGRESS`, and `EALREADY` when a connect that was interrupted
+    by a handled signal is re-issued while the handshake still runs — are BOTH classified as "in progress", so the
+    blocking connect waits for writability instead of reporting a failure (the retry after `EINTR` is otherwise not
+    transparent); `EISCONN` is neither in-progress nor would-block.  (Round-6 seed C09-r6m1 moved `EALREADY` to the
+    "already connected" class: the model follows the extracted table, so only this pin sees it.) -/
+theorem connect_pending_codes :
+    ioFromSystem EINPROGRESS = P_ERROR_IO_IN_PROGRESS ∧ ioFromSystem EALREADY = P_ERROR_IO_IN_PROGRESS ∧
+    ioFromSystem EISCONN ≠ P_ERROR_IO_IN_PROGRESS ∧ ioFromSystem EISCONN ≠ P_ERROR_IO_WOULD_BLOCK := by
+  decide
+
 example : dataStep { blocking := true, poll := .poll 5 1 (-1) 1, call := .recv 5 0 4 0, failMsg := "x" } { sys := .recv, ret := .err ENOTCONN }
     = .fail { code := P_ERROR_IO_NOT_CONNECTED, native := ENOTCONN, msg := "x" } ENOTCONN := by decide
 
